@@ -905,6 +905,15 @@ def o_c15(tr):
         i += 1
 
 
+def o_c18(tr):
+    """a listing never aliases one entity with another: every listed order, registration and stream equals its point read
+    (the harness prints a `D <module>.alias` line when the keeper's listing and the point read of the same entity differ)"""
+    for l in tr.impl_lines:
+        t = l.split()
+        if len(t) >= 2 and t[0] == "D" and t[1].endswith(".alias"):
+            yield {"oracle": "listing=point-read", "signature": t[1], "detail": l}
+
+
 def o_invariants(tr):
     for l in tr.soft:
         if l.startswith("x inv") and l.endswith("broken"):
@@ -913,7 +922,7 @@ def o_invariants(tr):
 
 ORACLES = {
     "C02": [o_c02, o_invariants], "C03": [o_c03], "C04": [o_c04, o_invariants], "C05": [o_c05, o_c05_granter, o_c05_amount], "C07": [o_c07], "C08": [o_c08],
-    "C09": [o_c09], "C10": [o_c10, o_invariants], "C11": [o_c11], "C12": [o_c12], "C14": [o_c14], "C16": [o_c16, o_c03],
+    "C09": [o_c09], "C10": [o_c10, o_invariants], "C11": [o_c11], "C12": [o_c12], "C14": [o_c14], "C16": [o_c16, o_c03], "C18": [o_c18],
     "C13": [o_c13], "C17": [o_c17], "C20": [o_c20], "C15": [o_c15, o_invariants], "C06": [o_c06], "C01": [],
 }
 
